@@ -6,6 +6,7 @@
 package main
 
 import (
+	"regexp"
 	"bufio"
 	"crypto/sha1"
 	"encoding/json"
@@ -129,6 +130,8 @@ func outcomeClass(s string) string {
 	return "value"
 }
 
+var panicRe = regexp.MustCompile(`\bpanic\b`)
+
 func main() {
 	maxMis := flag.Int("max-mismatches", 50, "mismatches to report in full")
 	nsamples := flag.Int("samples", 3, "sample cases to echo per tag")
@@ -198,6 +201,14 @@ func main() {
 							sum.Mismatches = append(sum.Mismatches, Mismatch{c.ID, "judge", c.Cls, c.Tag, c.Do, impl, c.Model, "<judge:" + name + ">", c.Line})
 						}
 					}
+				}
+			}
+			// a Go panic that the model does not predict is a failing input in its own right (C03 for the readers; for the
+			// writers the model predicts the panics that nil sub-structures cause, and those are not counted)
+			if panicRe.MatchString(impl) && !panicRe.MatchString(c.Model) {
+				sum.JudgeFail++
+				if len(sum.Mismatches) < *maxMis {
+					sum.Mismatches = append(sum.Mismatches, Mismatch{c.ID, "judge", c.Cls, c.Tag, c.Do, impl, c.Model, "<judge:no-panic>", c.Line})
 				}
 			}
 			if impl != c.Model {
